@@ -37,6 +37,7 @@ fn main() {
         "histories" => fqv::scen_hist::histories(&mut sink, &arg(&args, "--replay-in", ""), arg(&args, "--grp0", "0").parse().unwrap_or(0)),
         "threads" => fqv::scen_hist::threads(&mut sink, seed, thorough, 1_000_000),
         "fileio" => fqv::scen_file::fileio(&mut sink, seed, thorough, &arg(&args, "--replay-in", "")),
+        "conv" => fqv::scen_render::conv(&mut sink, seed, thorough),
         "raster" => fqv::scen_render::raster(&mut sink, seed, thorough),
         #[cfg(feature = "hooks")]
         "wasm" => fqv::scen_wasm::wasm(&mut sink, seed, thorough, &arg(&args, "--alphabet", ""), &arg(&args, "--replay-in", "")),
